@@ -387,7 +387,7 @@ def check(rec, kind, idx, rng, tier):
     if len(spec['arrays']) > 1 and rng.random() < 0.4:
         chunks_list = [c0] + [gen.random_chunks((H, W), rng) for _ in spec['arrays'][1:]]     # bands chunked differently
     sname, skw = _sched(rng)
-    if idx == 0 and op in ('slope', 'apply'):
+    if len(rec.samples) < 1 and op in ('slope', 'apply', 'mean', 'ndvi', 'hotspots'):
         rec.sample(dict(op=op, array=spec['arrays'][0], chunks=chunks_list, kernel=spec['kernel'], scheduler=sname))
     ok = run_pair(rec, op, spec, chunks_list, geom, sname, skw, rng)
     if ok and len(chunks_list) > 1:
